@@ -154,17 +154,23 @@ def check(prog: dict[str, Any], rec: Any) -> None:
                 rec.violation("value-emitted-although-input-missing-or-result-undefined", {**w, "got": val})
         else:
             exp, bound = ref
-            big = fm.max_abs(ast, vals)
-            if abs(exp) > F(18, 10) * F(10) ** 308:
-                rec.bucket("overflow-expected-None")
-                if val is not None:
-                    rec.violation("non-finite-result-emitted-as-a-value", {**w, "got": val})
-                continue
-            small = fm.min_abs_nonzero(ast, vals)
-            if big > F(10) ** 300 or (small is not None and small < F(1, 10 ** 290)):
-                # an intermediate result leaves the float range (overflow / underflow to 0): the exact
-                # reference cannot predict the float outcome
-                rec.count("rounds_with_possible_intermediate_overflow_or_underflow(skipped)")
+            if any(abs(x) >= 1e150 for x in vec):
+                # huge-input rounds exist to exercise "a non-finite result is emitted as None". They are judged
+                # only in the sure case: the exact result exceeds the float range while every *proper*
+                # sub-expression stays inside it, so the float evaluation overflows exactly at the root.
+                # Everything else (intermediate overflow to inf, underflow to 0) is float-range behaviour the
+                # exact reference cannot predict: skipped, counted.
+                kids = [ast[2]] if ast[0] == "un" else ([ast[2], ast[3]] if ast[0] == "bin" else [])
+                inner = max([fm.max_abs(k2, vals) for k2 in kids] or [F(0)])
+                inner_small = [m for m in (fm.min_abs_nonzero(k2, vals) for k2 in kids) if m is not None]
+                sure = (abs(exp) > F(18, 10) * F(10) ** 308 and inner < F(10) ** 300
+                        and (not inner_small or min(inner_small) > F(1, 10 ** 290)))
+                if sure:
+                    rec.bucket("overflow-expected-None")
+                    if val is not None:
+                        rec.violation("non-finite-result-emitted-as-a-value", {**w, "got": val})
+                else:
+                    rec.count("huge_input_rounds_not_judged(float range effects)")
                 continue
             if any_missing:
                 rec.bucket("expected-value-despite-missing(zeros)")
